@@ -333,6 +333,41 @@ theorem wan_new_tcp_connection (rt : RouteIn → Int) (w : World) (s : Skb) (l2 
     simp only [newConnState, Option.getD_some]
     cases (pidIsControlPlane w s).pp <;> rfl
 
+/-- **Fail-closed when `conn_state_map` is full (WAN side).**  A new TCP connection of a local
+process whose state cannot be stored passes only if it is routed direct without a mark; everything
+else is dropped. -/
+theorem wan_new_tcp_map_full (rt : RouteIn → Int) (w : World) (s : Skb) (l2 : Bool) (p : Pkt)
+    (hi : s.ingressIf = 0) (hp : parsePacket s.raw l2 = .pkt p) (ht : p.l4proto = IPPROTO_TCP)
+    (hs : p.syn = true) (ha : p.ack = false) (hcp : (pidIsControlPlane w s).isCp = false)
+    (hr : 0 ≤ rt (wanRouteIn s p true (ppName (pidIsControlPlane w s).pp) (if l2 then p.ethSrc else zeros 6)))
+    (hc : ¬ connRoom w p.tuples.five) :
+    let d := unpackRoute (rt (wanRouteIn s p true (ppName (pidIsControlPlane w s).pp) (if l2 then p.ethSrc else zeros 6)))
+    (wanEgress rt w s l2).2 = if d.ob = OUTBOUND_DIRECT ∧ d.mark = 0 then outOk s s.mark else outShot s := by
+  intro d
+  rw [wanEgress_tcp rt w s l2 p hi hp ht]
+  unfold wanEgressTcp
+  simp only [hs, ha, Bool.not_false, Bool.and_self, if_true]
+  unfold wanTcpSyn
+  have hneg : ¬ rt (wanRouteIn s p true (ppName (pidIsControlPlane w s).pp) (if l2 then p.ethSrc else zeros 6)) < 0 := by
+    omega
+  simp only [hcp, Bool.false_eq_true, if_false, hneg]
+  have hc' : ¬ connRoom (pidIsControlPlane w s).w p.tuples.five := fun h =>
+    hc ((connRoom_congr (pidIsControlPlane_conn w s) (pidIsControlPlane_rest w s) _).mp h)
+  rw [markTcpSeen_syn_full _ p.tuples.five false (p.fin || p.rst) _ hc']
+  by_cases hd : d.ob = OUTBOUND_DIRECT ∧ d.mark = 0
+  · obtain ⟨h1, h2⟩ := hd
+    simp [d, h1, h2] at h1 h2 ⊢
+    simp [h1, h2]
+  · simp only [hd, if_false]
+    have : (decide (d.ob = OUTBOUND_DIRECT) && d.mark == 0) = false := by
+      cases hx : (decide (d.ob = OUTBOUND_DIRECT) && d.mark == 0)
+      · rfl
+      · exfalso; apply hd
+        simp only [Bool.and_eq_true, decide_eq_true_eq, beq_iff_eq] at hx
+        exact hx
+    simp only [d] at this
+    simp [this]
+
 /-- **New UDP flow of a local process** (not dae, not port 53): no live entry, or a live entry that
 holds no decision yet.  Routed by the current rule program; fate as for TCP.  The decision — plain
 direct included — is cached in the flow's entry, from which `RetrieveRoutingResult` returns exactly
